@@ -387,7 +387,7 @@ fn no_body_status(method: &str, status: u16) -> bool {
 
 pub fn c01(o: &Opts, t: &mut Tracer) -> Value {
     let mut rng = rng_for(o.seed, 0xC01);
-    let ncases = if o.quick() { 120 } else { 2500 };
+    let ncases = if o.quick() { 120 } else { 6000 };
     let mut runs = 0u64;
     for ci in 0..ncases {
         let method = ["GET", "HEAD", "POST", "PUT", "GET", "POST"][ci % 6];
